@@ -13,6 +13,8 @@ const KINDS: &[(&str, u8, &str)] = &[
     ("rw-p", 0, ""), ("r-xp", 0, "[vdso]"), ("r--p", 0, "[vvar]"), ("rw-p", 0, "[heap]"), ("rw-p", 0, "[stack]"),
     ("r--s", 0, "/dev/shm/x y (deleted)"), ("--xp", 0, ""), ("rw-p", 0, "[anon:scudo]"), ("r--p", 0, "relative name"), ("---s", 0, ""),
     ("r-xp", 0, ""), ("---p", 1, ""), ("r-xp", 0, "/usr/lib/liba.so (deleted)"), ("---p", 0, "[vdso]"),
+    // lines whose file offset equals the end of the previous line (identity-mapped devices, continued files)
+    ("rw-s", 2, "/dev/mem"), ("rw-p", 2, ""), ("r--p", 2, "/usr/lib/libb.so.1"),
 ];
 pub fn perms_bits(p: &str) -> u64 {
     let b = p.as_bytes();
